@@ -322,10 +322,27 @@ func exec(line string) string {
 	s := &sim{p: newPipe(), calls: map[int]*call{}}
 	s.p.onWrite = s.onWrite
 	s.mux = ssh.VerifC35NewMux(s.p)
-	ended := false
+	ended, stuck := false, false
 	var segs []string
 	for step, tok := range o.List("steps") {
 		step := step
+		if stuck {
+			// the mux loop is parked for ever; the only thing left to observe is what the peer's hang-up does
+			if tok != "x" {
+				segs = append(segs, "-")
+				continue
+			}
+			s.p.Close()
+			done := make(chan struct{})
+			go func() { s.mux.Wait(); close(done) }()
+			select {
+			case <-done:
+				segs = append(segs, "END-after-block")
+			case <-time.After(1500 * time.Millisecond):
+				segs = append(segs, "STUCK,shut=bad:loop-never-exits")
+			}
+			continue
+		}
 		if ended && (tok[0] == 'p' || tok == "x") {
 			segs = append(segs, "-")
 			continue
@@ -334,8 +351,42 @@ func exec(line string) string {
 		case tok[0] == 'p':
 			pkt := hx.UnHex(tok[1:])
 			s.p.send(pkt)
-			if !waitFor(10*time.Second, func() bool { return s.p.idle() || s.p.isClosed() }) {
+			// normal: the loop handles the packet and parks in ReadPacket again (idle), or tears the connection
+			// down (closed). Blocked: the packet was taken from the pipe and the loop never comes back.
+			// (both a wall-clock and a poll-count threshold: under CPU starvation the polls slow down with the loop)
+			var takenAt time.Time
+			polls := 0
+			blocked := false
+			if !waitFor(30*time.Second, func() bool {
+				if s.p.idle() || s.p.isClosed() {
+					return true
+				}
+				if s.p.empty() {
+					polls++
+					if takenAt.IsZero() {
+						takenAt = time.Now()
+					} else if time.Since(takenAt) > 1500*time.Millisecond && polls > 3000 {
+						blocked = true
+						return true
+					}
+				} else {
+					takenAt, polls = time.Time{}, 0
+				}
+				return false
+			}) {
 				return "hang"
+			}
+			if blocked && !s.p.idle() && !s.p.isClosed() {
+				stuck = true
+				s.drain()
+				seg := s.flush()
+				if seg == "-" {
+					seg = "BLOCKED"
+				} else {
+					seg += ",BLOCKED"
+				}
+				segs = append(segs, seg)
+				continue
 			}
 			if s.p.isClosed() {
 				ended = true
@@ -352,7 +403,7 @@ func exec(line string) string {
 			switch pkt[0] {
 			case 81, 82:
 				c = s.pendingOn(-1, "g")
-			case 91, 92, 99, 100, 52, 97:
+			case 91, 92, 99, 100, 52, 97, 5, 6:
 				if len(pkt) >= 5 {
 					c = s.pendingOn(int(binary.BigEndian.Uint32(pkt[1:])), "oq")
 				}
@@ -508,6 +559,7 @@ type gchan struct {
 	live, inbound, decided, held bool
 	remote                       uint32
 	pendingOpen, pendingReq      bool
+	queued                       int // messages possibly sitting in ch.msg (upper bound)
 }
 
 type gsim struct {
@@ -598,8 +650,8 @@ func (gs *gsim) fatal(p []byte, confirmOK, failureOK bool) bool {
 		return !confirmOK
 	case 92:
 		return !failureOK
-	case 52:
-		return false
+	case 5, 6:
+		return len(p) != 5+int(id)
 	}
 	return true
 }
@@ -720,7 +772,13 @@ func genOne(g *hx.Gen) {
 				}
 			case 7, 8:
 				pkt = cat([]byte{byte(r.PickInt(99, 100))}, u32(id))
+				if ch != nil && ch.queued >= 10 {
+					pkt = nil
+				}
 				apply = func() {
+					if ch != nil {
+						ch.queued++
+					}
 					if ch != nil && ch.pendingReq {
 						ch.pendingReq = false
 						g.Stat("chan.reply-solicited")
@@ -754,13 +812,17 @@ func genOne(g *hx.Gen) {
 						g.Stat("openfailure.expected")
 					}
 				}
-			case 13: // a message type decode() knows but the connection layer does not expect
-				pkt = cat([]byte{52}, u32(id), r.Bytes(r.PickInt(0, 3)))
-				apply = func() {
-					if ch != nil {
+			case 13: // messages decode() knows but the connection layer does not expect: SERVICE_REQUEST / SERVICE_ACCEPT
+				// (one string; read as a channel packet the string LENGTH is the channel id) → `default: ch.msg <- msg`
+				if id < 64 && ch != nil && ch.queued < 10 {
+					pkt = cat([]byte{byte(r.PickInt(5, 6))}, u32(id), r.Bytes(int(id)))
+					apply = func() {
+						ch.queued++
 						ch.pendingOpen, ch.pendingReq = false, false
-						g.Stat("chan.type52")
+						g.Stat("chan.unsolicited-service-msg")
 					}
+				} else {
+					pkt = cat([]byte{52}, u32(id), r.Bytes(r.PickInt(0, 3))) // USERAUTH_SUCCESS with trailing bytes: parse error
 				}
 			case 14: // unknown message number
 				pkt = cat([]byte{byte(r.PickInt(0, 2, 95, 101, 150, 191, 193, 255))}, u32(id), r.Bytes(r.PickInt(0, 4)))
@@ -807,6 +869,7 @@ func genOne(g *hx.Gen) {
 			if h < len(gs.heldSlots) && want {
 				if sl := gs.heldSlots[h]; sl < len(gs.slots) && gs.slots[sl] != nil {
 					gs.slots[sl].pendingReq = true
+					gs.slots[sl].queued = 0
 				}
 			}
 			g.Stat("local.chanreq")
@@ -857,9 +920,44 @@ func genOne(g *hx.Gen) {
 	g.Emit("mux steps=%s", strings.Join(toks, ","))
 }
 
+// genFlood: the witness family of mux_can_block_on_unsolicited — an accepted channel nobody is waiting on
+// receives 17+ messages that take the `default: ch.msg <- msg` arm; then the peer hangs up.
+func genFlood(g *hx.Gen) {
+	r := g.R
+	var toks []string
+	emit := func(b []byte) { toks = append(toks, "p"+hx.Hex(b)) }
+	// some channels first so that the victim's id (= length of the service string) varies
+	nPre := r.Intn(3)
+	for i := 0; i < nPre; i++ {
+		emit(cat([]byte{90}, sshStr("a"), u32(uint32(10+i)), u32(1<<20), u32(1<<15)))
+	}
+	victim := nPre
+	if r.Bool() {
+		emit(cat([]byte{90}, sshStr("a1"), u32(77), u32(1<<20), u32(1<<15)))
+	} else {
+		toks = append(toks, "o")
+		emit(cat([]byte{91}, u32(uint32(victim)), u32(77), u32(1<<20), u32(1<<15)))
+	}
+	for i := r.Range(17, 20); i > 0; i-- {
+		emit(cat([]byte{byte(r.PickInt(5, 6))}, u32(uint32(victim)), r.Bytes(victim)))
+		if r.Chance(1, 6) {
+			emit(cat([]byte{192}, sshStr("")))
+		}
+	}
+	if r.Chance(3, 4) {
+		toks = append(toks, "x")
+	}
+	g.Stat("flood")
+	g.Emit("mux cls=flood steps=%s", strings.Join(toks, ","))
+}
+
 func gen(g *hx.Gen) {
 	n := g.Count(1000, 60000)
 	for i := 0; i < n; i++ {
+		if i%125 == 124 {
+			genFlood(g)
+			continue
+		}
 		genOne(g)
 	}
 }
